@@ -12,19 +12,23 @@ CheckA(r) ==
   CASE r.e = "Sym" -> r.eok => (r.dok /\ r.oh = r.ih /\ r.ol = r.il /\ r.sentinel /\ r.pos = r.blockend)
     [] r.e = "SymCrash" -> FALSE
     [] r.e = "RansRow" -> r.dok /\ r.dec = r.syms
+    [] r.e = "Create" -> r.ok => r.dok            \* a table the encoder wrote is a table the decoder accepts
     [] OTHER -> TRUE
 CheckB(r) ==
   CASE r.e = "RansRow" -> Drift(r.bytes = r.model, "RAnsEncoder bytes")
     [] r.e = "RansW" -> LET s == S(r.pb)!RansWrite([x |-> r.x0, out |-> <<>>], r.prob, r.cum)
                         IN Drift(s.x = r.x1 /\ s.out = r.emit /\ S(r.pb)!StateInRange(r.x1), "rans_write")
     [] r.e = "Create" ->
-         LET n == S(12)!Normalize(r.freq)
-             hd == BS!DecDigits(r.bytes, 0, 1, 5)
-             tb == S(12)!ReadTable(r.bytes, hd.pos, Len(n.pr), <<>>)
-         IN /\ Drift(r.ok = n.ok, "Create result")
-            /\ (r.ok /\ n.ok) => /\ Drift(tb.ok /\ tb.pr = n.pr, "normalised table")
-                                 /\ Drift(S(12)!TableOK(S(12)!Trim(r.freq), tb.pr), "TableOK")
-                                 /\ Drift(SubSeq(r.bytes, hd.pos + 1, Len(r.bytes)) = S(12)!TableBytes(n.pr, 1), "table bytes")
+         LET hd == BS!DecDigits(r.bytes, 0, 1, 5)
+             nsym == hd.digits[1] + (IF Len(hd.digits) > 1 THEN 128 * hd.digits[2] ELSE 0)
+             tb == S(r.pb)!ReadTable(r.bytes, hd.pos, nsym, <<>>)
+             small == r.pb <= 12 /\ S(r.pb)!Sum(r.freq) < 100000       \* exact-integer Normalize stays below 2^31
+         IN /\ (r.ok => /\ Drift(tb.ok /\ tb.pos = Len(r.bytes), "serialised table parses")
+                         /\ Drift(S(r.pb)!TableOK(S(r.pb)!Trim(r.freq), tb.pr), "TableOK")
+                         /\ Drift(SubSeq(r.bytes, hd.pos + 1, Len(r.bytes)) = S(r.pb)!TableBytes(tb.pr, 1), "table bytes"))
+            /\ (small => LET n == S(r.pb)!Normalize(r.freq) IN
+                            /\ Drift(r.ok = n.ok, "Create result")
+                            /\ (r.ok /\ n.ok) => Drift(tb.pr = n.pr, "normalised table"))
     [] OTHER -> TRUE
 Conforms == ti <= N => (CheckA(Recs[ti]) /\ CheckB(Recs[ti]))
 Spec == ShardInit /\ [][ShardNext]_tvars
